@@ -68,6 +68,25 @@ def c07_fact_format_under_lock(repo):
     return True, ""
 
 
+def c07_fact_snapshot_under_save_lock(repo):
+    """offsetDB.save takes its job snapshot (which refills the shared o.jobsSnapshot slice) while it holds
+    o.mu (Model/SaveSnap.lean: program lockFirst)"""
+    import os
+    src = open(os.path.join(repo, "plugin/input/file/offset.go")).read()
+    a = src.find("func (o *offsetDB) save(")
+    if a < 0:
+        return False, "offsetDB.save not found"
+    body = src[a:]
+    lock, snap = body.find("o.mu.Lock()"), body.find("o.snapshotJobs(")
+    if lock < 0 or snap < 0:
+        return False, "o.mu.Lock() / o.snapshotJobs( not found in save"
+    if snap < lock:
+        return False, "o.snapshotJobs is called before o.mu.Lock()"
+    if "o.mu.Unlock()" in body[lock:snap].replace("defer o.mu.Unlock()", ""):
+        return False, "o.mu is released before o.snapshotJobs"
+    return True, ""
+
+
 def c07_nontrivial(c, i):
     if not c:
         return False
@@ -79,6 +98,8 @@ def c07_nontrivial(c, i):
         return "s" in i
     if c[0] == "c07.conc":
         return "s" in i
+    if c[0] == "c07.csave":
+        return i.count("s") >= 3
     if c[0] == "c07.hist":
         return i.count("sv") >= 2
     if c[0] == "c07.proto":
@@ -120,6 +141,11 @@ def c07_classify(c, i):
             else:
                 k += 1
         out.append("commits-during-save=" + ("0" if w == 0 else "1-9" if w < 10 else "10-999" if w < 1000 else "1000+"))
+    elif kind == "csave":
+        out.append("csave-jobs=" + ("<64" if int(c[1]) < 64 else "64-255" if int(c[1]) < 256 else "256+"))
+        out.append("csave-savers=" + c[3])
+        n = i.count("s")
+        out.append("csave-file-versions-loaded=" + ("<10" if n < 10 else "10-99" if n < 100 else "100+"))
     elif kind == "hist":
         out.append("hist-variant=" + c[1])
         # per save: was a temp file left behind (no rename / unlink after a successful open)?
@@ -155,11 +181,12 @@ CFG = {
         "technique": "Lean 4 proof (round trip by induction over the table; inductive invariant over all op lists of the save protocol) + differential correspondence (function harness and strace fault/kill injection)",
     },
     "props_modules": ["FileD.Props.C07"],
-    "facts": [("offsetDB.save formats a job's streams inside its job.mu critical section", c07_fact_format_under_lock)],
+    "facts": [("offsetDB.save formats a job's streams inside its job.mu critical section", c07_fact_format_under_lock),
+              ("offsetDB.save snapshots the jobs while holding o.mu", c07_fact_snapshot_under_save_lock)],
     "nontrivial": c07_nontrivial,
     "classify": c07_classify,
     "signatures": {"c07_sig_newline": c07_sig_newline},
-    "rule": "histories (c07.hist): saves run one after the other on one directory, real plugin/input/file save, real offset.Save through a byte callback and real offset.SaveYAML/LoadYAML (the encoder's bytes are an oracle in the case line): a save killed or failed (EIO) at write/fsync/close/rename (generic) resp. fsync/rename/unlink (file) so that its temp file stays behind, followed by saves of shorter and of longer states, two interrupted saves in a row, first save interrupted, plain successive saves (thorough: +150 random histories of 2-4 saves); the file under the real name is read and loaded after every save; process part: the save re-executed under strace for every single fault (EIO) and every kill point (SIGKILL at syscall entry) of open/write/fsync/rename/close/unlink, both protocols, plus first-save and two-fault cases (thorough: +330 random tables/blobs with 0-2 faults); function part: every stream name over {a,':',' ','-'} up to length 3 (thorough 4), pairs of them, the same as file names, a pool of names events can carry (':'-containing, UTF-8, control bytes, 1-6 kB, empty, with newline) x boundary offsets (0 … 2^63-1), random tables (0-4 jobs, 0-4 streams, duplicate sources/streams), every truncation and single-byte deletion of a two-job file, hand-written malformed files, random mutations of valid files, random strings over the format alphabet, random sequential schedules of real commits/truncations/saves, and committing goroutines racing the saver on jobs with 2-200 streams and with ~2000 streams (commit k of a source carries offset k round-robin over its racing streams, so the job's table is a function of k: the WHOLE loaded table of a source must equal its table after ONE k, with k between the commits returned before the save started and those started before it returned); distinct = distinct case line; non-trivial = something was loaded back / a save syscall was observed",
+    "rule": "concurrent saves (c07.csave): 3-12 goroutines each repeating `commit to one of its own jobs; save` on ONE offsetDB with 48-512 jobs (what sync persistence does with several processors) while a loader parses every new content of the offsets file: it must parse, name every job once, and hold each job's table after ONE k of its commits, k inside [commits whose save had returned before the read, commits started after it]; histories (c07.hist): saves run one after the other on one directory, real plugin/input/file save, real offset.Save through a byte callback and real offset.SaveYAML/LoadYAML (the encoder's bytes are an oracle in the case line): a save killed or failed (EIO) at write/fsync/close/rename (generic) resp. fsync/rename/unlink (file) so that its temp file stays behind, followed by saves of shorter and of longer states, two interrupted saves in a row, first save interrupted, plain successive saves (thorough: +150 random histories of 2-4 saves); the file under the real name is read and loaded after every save; process part: the save re-executed under strace for every single fault (EIO) and every kill point (SIGKILL at syscall entry) of open/write/fsync/rename/close/unlink, both protocols, plus first-save and two-fault cases (thorough: +330 random tables/blobs with 0-2 faults); function part: every stream name over {a,':',' ','-'} up to length 3 (thorough 4), pairs of them, the same as file names, a pool of names events can carry (':'-containing, UTF-8, control bytes, 1-6 kB, empty, with newline) x boundary offsets (0 … 2^63-1), random tables (0-4 jobs, 0-4 streams, duplicate sources/streams), every truncation and single-byte deletion of a two-job file, hand-written malformed files, random mutations of valid files, random strings over the format alphabet, random sequential schedules of real commits/truncations/saves, and committing goroutines racing the saver on jobs with 2-200 streams and with ~2000 streams (commit k of a source carries offset k round-robin over its racing streams, so the job's table is a function of k: the WHOLE loaded table of a source must equal its table after ONE k, with k between the commits returned before the save started and those started before it returned); distinct = distinct case line; non-trivial = something was loaded back / a save syscall was observed",
     "corr_name": "OffsetsFile.render/parse = offsetDB.save/load/parse (file bytes and loaded table); CommitSnap.step? = jobProvider.commit/truncateJob + save (sequential schedules exactly; concurrent runs through the history-window oracle); SaveProto.step? (fileFixed, genFixed) accepts the observed syscall trace of every save (openat without O_TRUNC is a different op) and predicts the file left on disk, across histories of saves (SaveProto.runHist)",
     "trusted_base": [
         "strace 6.1 fault injection (-e inject=<syscall>:error=EIO|signal=KILL:when=N); SIGKILL is delivered at syscall entry (the syscall is not executed)",
